@@ -12,4 +12,5 @@ for prop in C09 C19; do
     if [ $rc -ne 0 ]; then grep -E "^violation|^VIOLATION|HARNESS|process died" /tmp/try_benign.$prop.log | head -6; fi
 done
 git -C /repo checkout -- .
+( cd /verif && ./check build >/dev/null 2>&1 )
 echo "exits:$RCS"
